@@ -198,6 +198,25 @@ def project(rec, tid, k):
     return line
 
 
+def zero_rate_fields(rec, f_start):
+    """Snapshot-only facts of an update in a regime whose volume rates are zero (GbsTrace.ZeroRateVerdicts)."""
+    n, chi = rec["n"], rec["chi"]
+    thr = chi / n
+    o_st, f_st, o_start = np.asarray(rec["o_st"], dtype=float), np.asarray(rec["f_st"], dtype=float), np.asarray(rec["o_start"], dtype=float)
+    zbelow = [bool(x < thr) for x in f_start]
+    above = [h for h in range(n) if not zbelow[h]]
+    zlift = []
+    for g in range(n):
+        worst = 0.0
+        if zbelow[g] and thr > 0 and f_st.shape == (n,) and np.all(np.isfinite(f_st)):
+            for h in above:
+                if f_st[h] > 0:
+                    worst = max(worst, 1.0 - (float(f_st[g]) * float(f_start[h])) / (thr * float(f_st[h])))
+        zlift.append(cap(worst * 1e15))
+    zfrozen = [bool(o_st.shape == o_start.shape and np.array_equal(o_st[g], o_start[g])) for g in range(n)]
+    return dict(zbelow=zbelow, zfrozen=zfrozen, zlift=zlift)
+
+
 # ----------------------------------------------------------------------------- real histories
 def scenario_seed(sc, salt=0):
     return int((abs(SEED) * 1000003 + sum(x * 31**i for i, x in enumerate(sc["id"])) * 7919 + salt) % (2**31 - 1))
@@ -217,7 +236,12 @@ def run_history(pd, hook, sc, tid, chk, facts, lines, meta, nupd=None, salt=0):
     F, t = np.eye(3), 0.0
     prev_below = None
     crossed = False
-    for k in range(1, (nupd or sc["nupd"]) + 1):
+    total = nupd or sc["nupd"]
+    rp = sc.get("rp") or [4, 4]
+    for k in range(1, total + 1):
+        regime = rp[0] if 5 * k <= 3 * total else rp[1]
+        m.regime = pd.DeformationRegime(regime)
+        f_start = np.array(m.fractions[-1], dtype=float, copy=True)
         o_start = np.array(m.orientations[-1], dtype=float, copy=True)
         if np.abs(o_start).max() > 1.0 or not np.all(np.isfinite(o_start)):
             chk.skip("start-orientation-not-in-[-1,1]")  # outside the quantifier (not a rotation matrix)
@@ -235,6 +259,10 @@ def run_history(pd, hook, sc, tid, chk, facts, lines, meta, nupd=None, salt=0):
             break
         rec = dict(n=n, chi=chi, chin=chi10, chid=10, o_start=o_start, o_st=m.orientations[-1], f_st=m.fractions[-1], last=hook.slot["last"])
         line = project(rec, tid, k)
+        if regime in (0, 1, 7):
+            line.update(zero_rate_fields(rec, f_start))
+            facts["zero_rate_updates"] = facts.get("zero_rate_updates", 0) + 1
+            facts["zero_rate_grains_below_at_start"] = facts.get("zero_rate_grains_below_at_start", 0) + int(sum(line["zbelow"]))
         lines.append(line)
         meta[len(lines)] = dict(sc=sc, seed=seed, k=k, salt=salt)
         chk.count(("upd", tuple(sc["id"]), k))
